@@ -6,8 +6,9 @@ import WpModel.Drive.PageCounters
 import WpModel.Drive.TargetText
 import WpModel.Drive.CounterDescriptors
 import WpModel.Drive.ListHints
+import WpModel.Drive.ContentFns
 
 def main : IO Unit := Wp.Drive.runDriver
   [Wp.Drive.Counters.handle, Wp.Drive.CounterScope.handle, Wp.Drive.Repaginate.handle,
    Wp.Drive.PageCounters.handle, Wp.Drive.TargetText.handle, Wp.Drive.CounterDescriptors.handle,
-   Wp.Drive.ListHints.handle]
+   Wp.Drive.ListHints.handle, Wp.Drive.ContentFns.handle]
